@@ -388,7 +388,7 @@ func TestClusterScheduleMidPipeline(t *testing.T) {
 	c1 := dialT(t, cl.Addr(1))
 	wantEq(t, c1.do("RPUSH", k, "x"), int64(3))
 	ev := cl.Events()
-	if len(ev) != 3 || ev[0].AfterGReq != base+2 {
+	if len(ev) != 1 || ev[0].AfterGReq != base+2 {
 		t.Fatalf("events %+v", ev)
 	}
 	nodes, obj := cl.Lookup(k)
